@@ -59,6 +59,14 @@ Theorem C34_no_panic : forall nslen can s,
 Proof. exact no_panic. Qed.
 Print Assumptions C34_no_panic.
 
+(* The recursion of AddressSpace::delete is modelled with fuel |nodes|+1; more fuel never changes the
+   result (every nested call is on an existing node and removes it first), for the repaired and
+   for the legacy code alike. *)
+Theorem C34_delete_fuel_adequate : forall f ns rs id dtr k,
+  delete f (S (length ns) + k) ns rs id dtr = delete f (S (length ns)) ns rs id dtr.
+Proof. exact delete_fuel_adequate. Qed.
+Print Assumptions C34_delete_fuel_adequate.
+
 (* Histories: for ANY sequence of requests of any kinds and sizes, every item event (view of the
    item, status, returned id, state before, state after) satisfies [ev_ok]: Bad => nodes and
    references unchanged and no id; AddNodes Good => new node, fresh id, referenced from the given
